@@ -29,6 +29,11 @@ VehClassTree(b) ==
   ELSE IF ~IsAlnum(b[1]) \/ ~IsAlnum(b[2]) \/ ~IsAlnum(b[3]) THEN (IF b[1] = 0 /\ b[2] = 0 /\ b[3] = 0 THEN "unknown" ELSE "mod")
   ELSE IF SubSeq(b, 1, 3) \in StdVehicles THEN "std" ELSE "error"
 VehWire(v) == VehBytes(v)
+\* the licence a car needs (LFS: three demo cars, six more with S1, the rest of the built-in cars with S2, mods with S3)
+VehLicence(c) == IF c.k # "std" THEN "S3"
+                 ELSE IF c.name \in {<<88,70,71>>, <<88,82,71>>, <<70,66,77>>} THEN "Demo"
+                 ELSE IF c.name \in {<<88,82,84>>, <<82,66,52>>, <<70,88,79>>, <<76,88,52>>, <<76,88,54>>, <<77,82,84>>} THEN "S1"
+                 ELSE "S2"
 
 ----------------------------------------------------------------------------
 (* C14: rules every track configuration obeys, generic in its short code *)
@@ -40,6 +45,15 @@ TrackWire(c) == PadTo(c, 6)
 TrackReversed(c) == LastOf(c) \in {82, 89}      \* R, Y
 TrackOpen(c) == LastOf(c) \in {88, 89}          \* X, Y
 TrackArea(c) == SubSeq(c, 1, 2)
+\* the configuration a reversed / open configuration is derived from: BL1R -> BL1, AS7Y -> AS7X -> AS7
+TrackBaseCfg(c) == IF LastOf(c) \in {82, 88} THEN SubSeq(c, 1, Len(c) - 1)
+                   ELSE IF LastOf(c) = 89 THEN SubSeq(c, 1, Len(c) - 1) \o <<88>> ELSE c
+\* area codes and the licence their area needs
+AreaLicence == [BL |-> "Demo", SO |-> "S1", FE |-> "S1", AU |-> "S1", KY |-> "S2", WE |-> "S2", AS |-> "S2", RO |-> "S3", LA |-> "S3"]
+AreaKey(c) == CASE TrackArea(c) = <<66, 76>> -> "BL" [] TrackArea(c) = <<83, 79>> -> "SO" [] TrackArea(c) = <<70, 69>> -> "FE"
+                [] TrackArea(c) = <<65, 85>> -> "AU" [] TrackArea(c) = <<75, 89>> -> "KY" [] TrackArea(c) = <<87, 69>> -> "WE"
+                [] TrackArea(c) = <<65, 83>> -> "AS" [] TrackArea(c) = <<82, 79>> -> "RO" [] TrackArea(c) = <<76, 65>> -> "LA"
+                [] OTHER -> "??"
 
 ----------------------------------------------------------------------------
 (* C16: game versions: <number><letter>[<revision>] *)
